@@ -197,8 +197,7 @@ class SpecGen:
             default = r.choice([None, None, ['Lit', 'dflt'], ['T', 'T', []], ['Val', 3], ['List', [['Lit', 1], ['T', 'T', []]]]])
             factory = None
             if default is None and r.random() < 0.2:
-                factory = ['const', 4]
-                factory = None   # default_factory takes no argument: catalogue callables are unary
+                factory = ['addargs']   # called with no argument (the catalogue's variadic callable)
             skip = r.choice([None, None, None, 0, {'k': 'tuple', 'id': 0, 'items': [None, 0, '']}, {'skipnone': 1}, '', {'fn': ['is_none']}])
             skip_exc = r.choice([None, None, None, ['ValueError', 'GlomError'], ['KeyError']])
             return ['Coalesce', alts, default, factory, skip, skip_exc]
